@@ -162,9 +162,18 @@ fn read_tree(store: &Arc<Store>, tree: &MergedTree) -> TreeMap {
     out
 }
 
-// --- EOL model (mirrors lib/src/eol.rs for inputs below the 8 KiB probe) ---
+// --- EOL model (mirrors lib/src/eol.rs, including the 8 KiB binary probe) ---
 
+const PROBE_LIMIT: usize = 8 << 10;
+
+/// Classification as jj documents it: only the first 8 KiB are looked at, and a
+/// CR in the last byte of the window is not counted (it may be half of a CRLF).
 fn is_binary(b: &[u8]) -> bool {
+    let b = if b.len() >= PROBE_LIMIT {
+        if b[PROBE_LIMIT - 1] == b'\r' { &b[..PROBE_LIMIT - 1] } else { &b[..PROBE_LIMIT] }
+    } else {
+        b
+    };
     let mut i = 0;
     while i < b.len() {
         match b[i] {
@@ -279,14 +288,79 @@ impl Ticks {
 const FILES: &[&str] = &["a", "b", "d/c", "d/e/f", "x", "ign", "igd/g"];
 const GITIGNORE: &str = "/ign\n/igd/\n";
 
-fn ignored(path: &str) -> bool {
-    path == "ign" || path.starts_with("igd/")
+/// Root ignore file variants and nested (`d/.gitignore`) variants the
+/// simulated user may write. Only anchored literal names, with or without a
+/// trailing slash, so that the model needs none of Git's pattern language.
+const ROOT_IGNORES: &[&str] = &[GITIGNORE, "/igd/\n", "/ign\n/igd/\n/x\n"];
+const NESTED_IGNORES: &[&str] = &["/c\n", "/e/\n", "/c\n/e/\n", ""];
+
+/// The ignore rules in force, read from the ignore files that are on disk
+/// right now (jj reads them from disk while it walks the workspace).
+struct IgnoreModel {
+    /// (full path of the ignored name, directories only)
+    rules: Vec<(String, bool)>,
+}
+
+impl IgnoreModel {
+    fn from_disk(ws: &Path) -> Self {
+        let mut rules = vec![];
+        for (file, base) in [(".gitignore", ""), ("d/.gitignore", "d/")] {
+            let p = ws.join(file);
+            if !std::fs::symlink_metadata(&p).is_ok_and(|m| m.is_file()) {
+                continue;
+            }
+            let Ok(text) = std::fs::read_to_string(&p) else { continue };
+            for line in text.lines() {
+                let line = line.trim_end_matches('\r');
+                let Some(name) = line.strip_prefix('/') else { continue };
+                if name.is_empty() {
+                    continue;
+                }
+                match name.strip_suffix('/') {
+                    Some(dir) => rules.push((format!("{base}{dir}"), true)),
+                    None => rules.push((format!("{base}{name}"), false)),
+                }
+            }
+        }
+        Self { rules }
+    }
+
+    fn ignored(&self, path: &str) -> bool {
+        self.rules
+            .iter()
+            .any(|(full, dir_only)| path.starts_with(&format!("{full}/")) || (!dir_only && path == full))
+    }
 }
 
 fn content_for(ch: &mut Chooser, tag: &str) -> Vec<u8> {
     // fixed width so that "same size" edits are common
     let n = ch.choose(90) + 10;
-    match ch.weighted(&[5, 2, 1, 1]) {
+    match ch.weighted(&[10, 4, 2, 2, 1]) {
+        4 => {
+            // content around the 8 KiB probe boundary: `pad` bytes of 16-byte
+            // lines, filler up to a drawn offset, then a special sequence
+            let crlf = ch.chance(1, 2);
+            let line: &[u8] = if crlf { b"0123456789abcd\r\n" } else { b"0123456789abcde\n" };
+            let mut out = Vec::with_capacity(PROBE_LIMIT + 64);
+            for _ in 0..510 {
+                out.extend_from_slice(line);
+            }
+            let at = PROBE_LIMIT - 4 + ch.choose(8); // 8188..8195
+            while out.len() < at {
+                out.push(b'p');
+            }
+            match ch.choose(5) {
+                0 => out.extend_from_slice(b"\r\n"),
+                1 => out.extend_from_slice(b"\rx"),
+                2 => out.extend_from_slice(b"\0"),
+                3 => out.extend_from_slice(b"\n"),
+                _ => out.extend_from_slice(b"\r"),
+            }
+            if ch.chance(2, 3) {
+                out.extend_from_slice(format!("tail {tag} {n:02}\n").as_bytes());
+            }
+            out
+        }
         0 => format!("l1 {tag}\nl2 {n:02}\nl3\n").into_bytes(),
         1 => format!("l1 {tag}\r\nl2 {n:02}\r\nl3\r\n").into_bytes(),
         2 => format!("bin {tag}\0{n:02}\rx").into_bytes(),
@@ -423,6 +497,9 @@ struct Run<'a> {
     seq: u64,
     /// conflict files exactly as checkout wrote them (path -> bytes)
     materialized: BTreeMap<String, Vec<u8>>,
+    /// conflict files whose resolved region the user edited:
+    /// path -> (bytes on disk, conflict before the edit, expected conflict)
+    edited_conflicts: BTreeMap<String, (Vec<u8>, MergedTreeValue, MergedTreeValue)>,
     stopped: bool,
     shared_log: &'a std::sync::Mutex<Vec<String>>,
 }
@@ -466,7 +543,11 @@ impl Run<'_> {
     fn user_edit(&mut self, ts: &TreeState) {
         let path = FILES[self.ch.choose(FILES.len())];
         let disk_path = self.env.ws.join(path);
-        let kind = self.ch.weighted(&[6, 2, 1, 1, 1, 1]);
+        let kind = self.ch.weighted(&[12, 4, 2, 2, 2, 2, 3]);
+        if kind == 6 {
+            self.edit_ignore_file(ts);
+            return;
+        }
         // The simulated user leaves everything outside the sparse patterns
         // alone (files there would be untracked obstacles for later pattern
         // changes, which is a different scenario).
@@ -517,6 +598,8 @@ impl Run<'_> {
                 Ticks::restamp(&disk_path);
                 self.note(format!("user touch {path} (conflict file)"));
                 self.out.probe("touch_conflict_file", 1);
+            } else if kind == 0 {
+                self.edit_resolved_region_of_conflict(ts, path);
             }
             return;
         }
@@ -632,10 +715,97 @@ impl Run<'_> {
         }
     }
 
+
+    /// C06, second clause: the user edits the first line of a materialised
+    /// conflict file, which lies outside every conflict hunk. The expected
+    /// value is computed with jj's pure Merge helpers: the edit lands on every
+    /// term of the simplified conflict and is written back to the surviving
+    /// positions of the original one.
+    fn edit_resolved_region_of_conflict(&mut self, ts: &TreeState, path: &str) {
+        let disk_path = self.env.ws.join(path);
+        let Ok(bytes) = std::fs::read(&disk_path) else { return };
+        if self.materialized.get(path) != Some(&bytes) || !bytes.starts_with(b"l1") {
+            return;
+        }
+        let Ok(value) = ts.current_tree().path_value(&rp(path)).block_on() else { return };
+        let Some(file_ids) = value.to_file_merge() else { return };
+        if file_ids.iter().any(Option::is_none) {
+            return;
+        }
+        let same_size = self.ch.chance(1, 2);
+        let new_first: &[u8] = if same_size { b"Z1" } else { b"first line edited" };
+        // every stored side starts with "l1\n" (gen_tree)
+        let simplified = file_ids.simplify();
+        let mut new_simplified = vec![];
+        for id in simplified.iter() {
+            let id = id.as_ref().unwrap();
+            let old = read_file_bytes(&self.env.store, &rp(path), id);
+            if !old.starts_with(b"l1\n") {
+                return;
+            }
+            let mut new = new_first.to_vec();
+            new.extend_from_slice(&old[2..]);
+            let new_id = self.env.store.write_file(&rp(path), &mut &new[..]).block_on().unwrap();
+            new_simplified.push(Some(new_id));
+        }
+        let new_simplified = Merge::from_vec(new_simplified);
+        let new_ids = if new_simplified.iter().len() != file_ids.iter().len() {
+            file_ids.clone().update_from_simplified(new_simplified)
+        } else {
+            new_simplified
+        };
+        let expected = value.with_new_file_ids(&new_ids);
+        let mut edited = new_first.to_vec();
+        edited.extend_from_slice(&bytes[2..]);
+        std::fs::write(&disk_path, &edited).unwrap();
+        Ticks::restamp(&disk_path);
+        self.note(format!(
+            "user edits the first (non-conflicting) line of conflict file {path}{}",
+            if same_size { " (same size)" } else { "" }
+        ));
+        self.out.probe("c06_resolved_region_edit", 1);
+        self.edited_conflicts.insert(path.to_string(), (edited, value, expected));
+    }
+
+    /// Writes one of the ignore-file variants (root or `d/.gitignore`), or
+    /// removes the nested one.
+    fn edit_ignore_file(&mut self, ts: &TreeState) {
+        let patterns = ts.sparse_patterns().clone();
+        let nested = self.ch.chance(1, 2);
+        let rel = if nested { "d/.gitignore" } else { ".gitignore" };
+        if !in_sparse(&patterns, rel) {
+            return;
+        }
+        let disk_path = self.env.ws.join(rel);
+        if nested && !self.env.ws.join("d").is_dir() {
+            return;
+        }
+        if std::fs::symlink_metadata(&disk_path).is_ok_and(|m| !m.is_file()) {
+            return;
+        }
+        if nested && self.ch.chance(1, 4) {
+            if std::fs::remove_file(&disk_path).is_ok() {
+                self.note("user deletes d/.gitignore".to_string());
+            }
+            return;
+        }
+        let text = if nested {
+            NESTED_IGNORES[self.ch.choose(NESTED_IGNORES.len())]
+        } else {
+            ROOT_IGNORES[self.ch.choose(ROOT_IGNORES.len())]
+        };
+        std::fs::write(&disk_path, text).unwrap();
+        Ticks::restamp(&disk_path);
+        self.note(format!("user writes {rel} = {text:?}"));
+        self.out.probe(if nested { "nested_ignore_file_written" } else { "root_ignore_file_written" }, 1);
+    }
+
     // ---- snapshot + oracle (C23, C26, C27, C29, C06) ----
     fn snapshot(&mut self, ts: &mut TreeState, ctx: &str) -> bool {
         self.scan();
         let disk = read_disk(&self.env.ws);
+        let ignores = IgnoreModel::from_disk(&self.env.ws);
+        let ignored = |p: &str| ignores.ignored(p);
         let prev = read_tree(&self.env.store, ts.current_tree());
         let patterns = ts.sparse_patterns().clone();
         let prev_sides = ts.current_tree().tree_ids().num_sides();
@@ -689,6 +859,13 @@ impl Run<'_> {
                             // unedited conflict file: identical conflict (C06)
                             self.out.probe("c06_unedited_conflict_snapshotted", 1);
                             Some(TreeEntry::Conflict(c.clone()))
+                        } else if let Some((edited, before, after)) = self.edited_conflicts.get(&p)
+                            && edited == bytes
+                            && (c == before || c == after)
+                        {
+                            // edit confined to a resolved region (C06)
+                            self.out.probe("c06_resolved_region_edit_snapshotted", 1);
+                            Some(TreeEntry::Conflict(after.clone()))
                         } else {
                             // edited conflict file: not judged here
                             continue;
@@ -715,6 +892,7 @@ impl Run<'_> {
             if got != expect.as_ref() {
                 // which property does the mismatch belong to?
                 let (prop, inv) = match (prev.get(&p), &expect) {
+                    (Some(TreeEntry::Conflict(_)), Some(TreeEntry::Conflict(_))) if self.edited_conflicts.contains_key(&p) => ("C06", "edit_of_resolved_region_not_applied_to_every_side"),
                     (Some(TreeEntry::Conflict(_)), Some(TreeEntry::Conflict(_))) => ("C06", "unedited_conflict_changed_by_snapshot"),
                     (Some(TreeEntry::File { bytes: old, .. }), Some(TreeEntry::File { bytes: new, .. })) if old.len() == new.len() && got == prev.get(&p) => {
                         ("C26", "edit_after_save_not_detected")
@@ -887,6 +1065,7 @@ impl Run<'_> {
         paths.sort();
         paths.dedup();
         self.materialized.clear();
+        self.edited_conflicts.clear();
         for p in &paths {
             let touched = in_sparse(&patterns, p) && old.get(p) != new.get(p);
             let expect = if touched {
@@ -910,6 +1089,31 @@ impl Run<'_> {
                 && in_sparse(&patterns, p)
             {
                 self.materialized.insert(p.clone(), bytes.clone());
+            }
+            if touched
+                && !old.contains_key(p)
+                && new.contains_key(p)
+                && disk_before.contains_key(p)
+            {
+                // an untracked file (ignored, so the snapshot before the checkout
+                // did not pick it up) stands where the new tree wants a file:
+                // C25 demands that it is skipped, not overwritten
+                if disk_after.get(p) != disk_before.get(p) {
+                    self.violate(
+                        "C25",
+                        "ignored_file_overwritten",
+                        format!("ignored untracked {p} was {:?} before the checkout and is {:?} after it", disk_before.get(p).map(short_disk), disk_after.get(p).map(short_disk)),
+                    );
+                    return false;
+                }
+                if stats.skipped_files == 0 {
+                    self.violate("C25", "skipped_path_not_reported", format!("ignored untracked {p} stood in the way but no path was reported skipped"));
+                    return false;
+                }
+                self.note(format!("path {p} skipped: ignored untracked file in the way"));
+                self.out.probe("obstacle_ignored_file", 1);
+                self.stopped = true;
+                return false;
             }
             if disk_after.get(p) != expect.as_ref()
                 && stats.skipped_files > 0
@@ -1017,10 +1221,27 @@ impl Run<'_> {
             if fresh.check_out(&new_tree).is_ok() {
                 let mut d1 = read_disk(&self.env.ws);
                 let d2 = read_disk(&ws2);
-                d1.retain(|p, _| !ignored(p));
-                if d1 != d2 {
-                    let diff: Vec<&String> = d1.keys().chain(d2.keys()).filter(|p| d1.get(*p) != d2.get(*p)).collect();
-                    self.violate("C24", "switch_differs_from_fresh_checkout", format!("after switching to {tag} the disk differs from a fresh checkout at {diff:?}"));
+                // ignored leftovers of the user are not part of the tree; the
+                // rules are those of the ignore files now on disk (checked out
+                // with the tree) - an ignored file is never in a generated tree
+                let ignores = IgnoreModel::from_disk(&self.env.ws);
+                d1.retain(|p, _| new.contains_key(p) || !ignores.ignored(p));
+                // A file the switch did not touch may have been rewritten by the
+                // user in a form that normalises to the same stored content (LF
+                // vs CRLF under EOL conversion); it legitimately stays as the
+                // user left it.
+                let eol = self.env.eol;
+                let equivalent = |p: &String| -> bool {
+                    old.get(p) == new.get(p)
+                        && matches!(
+                            (d1.get(p), d2.get(p)),
+                            (Some(DiskEntry::File { bytes: a, exec: ea }), Some(DiskEntry::File { bytes: b, exec: eb }))
+                                if ea == eb && snapshot_convert(eol, a) == snapshot_convert(eol, b)
+                        )
+                };
+                let diff: Vec<&String> = d1.keys().chain(d2.keys()).filter(|p| d1.get(*p) != d2.get(*p) && !equivalent(p)).collect();
+                if !diff.is_empty() {
+                    self.violate("C24", "switch_differs_from_fresh_checkout", format!("after switching to {tag} the disk differs from a fresh checkout at {:?}", diff.iter().map(|p| format!("{p}: {:?} vs fresh {:?}", d1.get(*p).map(short_disk), d2.get(*p).map(short_disk))).collect::<Vec<_>>()));
                     return false;
                 }
                 self.out.probe("fresh_checkout_compared", 1);
@@ -1220,6 +1441,7 @@ operation.hostname = "sim.example.com"
                 log: vec![],
                 seq: 0,
                 materialized: BTreeMap::new(),
+                edited_conflicts: BTreeMap::new(),
                 stopped: false,
                 shared_log: &shared_log,
             };
